@@ -152,6 +152,9 @@ def _one(ctx, C, LP, Fc, klass, fam, seedv, tol):
         with core.quiet():
             if DEFAULT_TOL[0]:       # the documented default (1e-6), not passed
                 g = C.completion_from_root_finding(np.array(Fc), coef_type="F", seed=seed_arg)
+            elif zlib.crc32(repr((Fc, seedv, tol, "call-form")).encode()) % 3 == 0:
+                ctx.count("calling-form:positional")
+                g = C.completion_from_root_finding(np.array(Fc), "F", seed_arg, np.float64(tol))
             else:
                 g = C.completion_from_root_finding(np.array(Fc), coef_type="F", seed=seed_arg, tol=tol)
         out = ("ok", g)
